@@ -39,6 +39,21 @@ Theorem C03_roundtrip p :
   wfb p -> from_attributes true true (names p) (shape p) (rows p) (cols p) = Ok p.
 Proof. exact: roundtrip_retain. Qed.
 
+(* rebuilding a well-formed array from (exponents, coefficients, names) - which is also what rebuilding from todict() does:
+   the dict lists the stored (exponent row, coefficient array) pairs in storage order, rows distinct - succeeds under EVERY
+   setting of the retain flags, gives a well-formed array of the same shape, and every element denotes the same polynomial *)
+Theorem C03_rebuild_any_flags rc rn p :
+  wfb p ->
+  exists q, [/\ from_attributes rc rn (names p) (shape p) (rows p) (cols p) = Ok q, wfb q, shape q = shape p
+               & forall i, absE n q i = absE n p i].
+Proof.
+move=> wp; have [srs rpos urs wid [csz npos un]] := wfbP wp.
+have [q eq] := from_attributes_total rc rn (shape p) srs rpos urs wid un.
+exists q; split=> //; first exact: (from_attributes_wf csz npos eq).
+- by have [_ ->] := from_attributes_absE n 0 eq.
+- by move=> i; have [-> _] := from_attributes_absE n i eq.
+Qed.
+
 (* with the flags off exactly the all-zero non-constant terms go (or the zero constant stays) *)
 Theorem C03_drops_exactly ns sh rs (cs : seq (seq R)) q :
   size rs = size cs -> from_attributes false true ns sh rs cs = Ok q ->
@@ -67,6 +82,7 @@ Print Assumptions C03_constructed_is_wf.
 Print Assumptions C03_clean_preserves_value.
 Print Assumptions C03_never_fails_on_wf.
 Print Assumptions C03_roundtrip.
+Print Assumptions C03_rebuild_any_flags.
 Print Assumptions C03_drops_exactly.
 Print Assumptions C03_rejects_duplicate_names.
 Print Assumptions C03_rejects_duplicate_rows.
